@@ -68,7 +68,7 @@ func init() {
 		st.atomicInterference(addr)
 		return st.load(st.heap, addr), true
 	})
-	reg("sync/atomic.AddInt64", []string{"F:*", "B:int64:*"}, func(st *State, fr *Frame, call ssa.CallInstruction, a []SVal) (SVal, bool) {
+	reg("sync/atomic.AddInt64", []string{"$arg0"}, func(st *State, fr *Frame, call ssa.CallInstruction, a []SVal) (SVal, bool) {
 		addr := st.ptrAddr(a[0], types.Typ[types.Int64])
 		st.atomicInterference(addr)
 		old := st.scalar(st.load(st.heap, addr))
@@ -76,7 +76,7 @@ func init() {
 		st.store(addr, nv)
 		return nv, true
 	})
-	reg("sync/atomic.StoreInt64", []string{"F:*", "B:int64:*"}, func(st *State, fr *Frame, call ssa.CallInstruction, a []SVal) (SVal, bool) {
+	reg("sync/atomic.StoreInt64", []string{"$arg0"}, func(st *State, fr *Frame, call ssa.CallInstruction, a []SVal) (SVal, bool) {
 		addr := st.ptrAddr(a[0], types.Typ[types.Int64])
 		st.store(addr, a[1])
 		return nil, true
